@@ -173,6 +173,63 @@ finding("C13-span-in-foreign-source", "C13", [],
  "`... | filter 1 + 2 | take 3 4` returns `internal compiler error; tracked at https://github.com/PRQL/prql/issues/4317` with span source_id 0 (std.prql), start 2411: the span does not lie in the named source, and location/display are absent.",
  None)
 
+def panic_finding(slug, file, prefix, example, stage, extra=""):
+    fid = "C12-panic-" + slug
+    FINDINGS.append({"id": fid, "property": "C12", "also_seen_by": [], "status": "open",
+        "signature": f"panic raised in {file} whose message starts with {prefix!r} (matched on file and message prefix, not on the line)",
+        "panic_file": file, "panic_message_prefix": prefix,
+        "description": f"{stage} panics instead of returning an error. {extra}".strip(),
+        "example": example})
+
+panic_finding("error-span-out-of-bounds", "prqlc/src/error_message.rs", "span ",
+ "from t | select {a = \"é\"} | derive {zz = 1 +", "prql_to_pl / compile",
+ "assert!(e.location.is_some()) in ErrorMessages::composed: parser spans are byte offsets, ariadne counts characters (same root cause as C13-parser-resolver-spans-are-byte-offsets); any parse error at the end of a source containing multi-byte text.")
+panic_finding("column-name-not-set", "prqlc/src/sql/gen_expr.rs", "name of this column has not been to be set",
+ "from t1 | select {id, a} | derive {c2 = id} | sort {id} | select {c5 = c2}", "compile / rq_to_sql",
+ "translate_cid expects a name for a sort column that was renamed / aliased (sort key rename, take-in-group then sort then aggregate).")
+panic_finding("gen-expr-unwrap", "prqlc/src/sql/gen_expr.rs", "called `Option::unwrap()` on a `None` value",
+ "token-mutated program: ... select {c0 = f && f, c1 * id ?? t2.id ?? a, f} ...", "compile")
+panic_finding("type-intersection-todo", "prqlc/src/semantic/resolver/types.rs", "not yet implemented",
+ "from t1 | select {id, s} | derive {id = id + 1} | append (from t2 | select {c4 = 0, c7 = id})", "compile / pl_to_rq",
+ "todo!() in type_intersection / type_intersection_of_tuples, reached by append / join of relations with differently shaped tuples.")
+panic_finding("cannot-find-cid", "prqlc/src/semantic/lowering.rs", "cannot find cid",
+ "let l1 = (from t1 | select {t1.id, k, x} | window (derive {c3 = t1.id, ...})) ...", "compile / pl_to_rq")
+panic_finding("names-unwrap", "prqlc/src/semantic/resolver/names.rs", "called `Option::unwrap()` on a `None` value",
+ "from t1 | sort {x, (id * -1)} | derive {c0 = x, c1 = x} | select {id, c2 = ...} | select {id, c3 = ...} (token-mutated)", "compile / pl_to_rq")
+panic_finding("functions-unwrap", "prqlc/src/semantic/resolver/functions.rs", "called `Option::unwrap()` on a `None` value",
+ "from t2 | select {id, k, f, a} | window (as {c0 = \"a\"}) | join ...", "compile / pl_to_rq")
+panic_finding("inference-unwrap", "prqlc/src/semantic/resolver/inference.rs", "called `Option::unwrap()` on a `None` value",
+ "let l0 = (from t3 | select {t3.id, k, from t3.u, f} | ...)  from r0 = l0 | select {u, c0 = k}", "compile / pl_to_rq")
+panic_finding("bad-special-function-cast", "prqlc/src/semantic/resolver/transforms.rs", "bad special function cast",
+ "from t2 | select {id} | group {id} (sort {id} | -> derive {c2 = (rank 1)})", "compile / pl_to_rq")
+panic_finding("operators-unwrap", "prqlc/src/sql/operators.rs", "called `Option::unwrap()` on a `None` value",
+ "prqlc/tests/integration/queries/date_to_text.prql compiled for redshift", "compile / rq_to_sql",
+ "find_operator_impl(..).unwrap(): std operator without an implementation for the dialect (the repository's own date_to_text query under a dialect its test header skips).")
+panic_finding("context-no-entry", "prqlc/src/sql/pq/context.rs", "no entry found for key",
+ "from t1 | select {t1.id, k} | select !{t1.id} | derive {c1 = \"b\", c2 = f\"{c1} \" <= \"A\"} | window (derive {c2 = case [c2 && c2 => ...]})", "compile / rq_to_sql")
+panic_finding("context-assert-eq", "prqlc/src/sql/pq/context.rs", "assertion `left == right` failed",
+ "RQ JSON whose relation.columns length differs from its closing Select (load_names assert_eq!)", "rq_to_sql on RQ JSON")
+panic_finding("gen-projection-no-entry", "prqlc/src/sql/gen_projection.rs", "no entry found for key",
+ "RQ JSON with a Select naming a column id that is not defined", "rq_to_sql on RQ JSON")
+panic_finding("anchor-no-entry", "prqlc/src/sql/pq/anchor.rs", "no entry found for key",
+ "RQ JSON with a dangling column id", "rq_to_sql on RQ JSON")
+panic_finding("pq-gen-query-unwrap", "prqlc/src/sql/pq/gen_query.rs", "called `Option::unwrap()` on a `None` value",
+ "RQ JSON whose From names a table id that is not declared", "rq_to_sql on RQ JSON")
+panic_finding("ident-unwrap", "prqlc-parser/src/parser/pr/ident.rs", "called `Option::unwrap()` on a `None` value",
+ "PL JSON with an empty Ident path: {\"Ident\": []}", "json::to_pl")
+panic_finding("codegen-ast-unwrap", "prqlc/src/codegen/ast.rs", "called `Option::unwrap()` on a `None` value",
+ "PL JSON mutated so that a node the formatter unwraps is missing", "pl_to_prql on PL JSON")
+for kind, what in [("pipeline", "a pipeline of N `| derive {x = 1}` steps"), ("add", "`1 + 1 + ... + 1` with N terms"), ("lets", "a chain of N let-tables each reading the previous one")]:
+    FINDINGS.append({"id": f"C12-deep-nesting-{kind}", "property": "C12", "also_seen_by": [], "status": "open",
+        "signature": f"nesting ladder kind `{kind}`: the child process is killed by a signal (stack overflow) at depth >= 4096",
+        "description": f"{what}, N = 4096 (about 60 KB of source): compile overflows the 8 MiB main-thread stack (recursive descent / PlFold without a depth limit) and the process aborts with SIGABRT.",
+        "example": f"pv depth {kind} 4096"})
+
+FINDINGS.append({"id": "C12-abort-rq-json", "property": "C12", "also_seen_by": [], "status": "open",
+    "signature": "an RQ JSON document on which rq_to_sql kills the process by a signal (stack overflow -> SIGABRT)",
+    "description": "RQ JSON in which a Compute refers to its own column id (`{\"Compute\": {\"id\": 2, \"expr\": ColumnRef 2 * -1}}`) followed by a Sort/Take on it: the SQL back-end inlines the expression recursively without a visited set and overflows the stack; the process aborts instead of returning an error.",
+    "example": "see replays/C12/abort-rq-json-self-referential-compute.json"})
+
 k = json.load(open(os.path.join(V, "known_findings.json")))
 keep = [f for f in k["findings"] if f["id"] not in {x["id"] for x in FINDINGS}]
 k["findings"] = keep + FINDINGS
